@@ -161,6 +161,12 @@ class ShapeEval:
             if fname in ('concatenate', 'concat', 'cat') and e.args and isinstance(e.args[0], ast.List):
                 ax = _axis(e)
                 shapes = [self.ev(x) for x in e.args[0].elts]
+                if ax is None and not any(k.arg in ('axis', 'dim') for k in e.keywords) and len(e.args) == 1 and len(shapes) >= 2 \
+                        and all(isinstance(s, tuple) and len(s) >= 2 and s[0] == 'B' for s in shapes):
+                    self.nops += 1
+                    self.report(e, f'`{ast.unparse(e)[:70]}` concatenates batched arrays {", ".join(fmt(s) for s in shapes)} without an axis: the default axis 0 is the '
+                                f'BATCH axis, so samples are stacked behind each other and a later reshape pairs entries of different samples')
+                    return UNK
                 if any(s is UNK or not isinstance(s, tuple) or (s and s[0] in ('tuple', 'list')) for s in shapes) or ax is None:
                     return UNK
                 rank = len(shapes[0])
@@ -336,6 +342,7 @@ def sh1(proj, rep, func_quals):
         m = fi.module
         rep.touch(m)
         se = ShapeEval(fi, rep, m)
+        se.minus1_is_batch = True
         # theta is (B, L) once the function has flattened the batch: `theta = theta.reshape(-1, shape[-1])` or by contract (helpers)
         se.env['theta'] = ('B', sym('L'))
         se.env['<batchname:batch'] = True
